@@ -149,12 +149,14 @@ func sampleOf(t *Trial) json.RawMessage {
 
 var watchdog *time.Timer
 
-func armWatchdog(what string) {
+func armWatchdog(what string) { armWatchdogFor(what, 120*time.Second) }
+
+func armWatchdogFor(what string, d time.Duration) {
 	if watchdog != nil {
 		watchdog.Stop()
 	}
-	watchdog = time.AfterFunc(120*time.Second, func() {
-		fmt.Fprintln(os.Stderr, "harness: WATCHDOG: a single trial exceeded 120 s wall clock:", what)
+	watchdog = time.AfterFunc(d, func() {
+		fmt.Fprintln(os.Stderr, "harness: WATCHDOG: a single trial exceeded", d, "wall clock:", what)
 		os.Exit(2)
 	})
 }
@@ -223,7 +225,7 @@ func worker(args []string) {
 		if len(seen) >= 4 {
 			continue
 		}
-		armWatchdog(fmt.Sprintf("%s ord=%d (minimising)", p.ID, ord))
+		armWatchdogFor(fmt.Sprintf("%s ord=%d (minimising)", p.ID, ord), 400*time.Second)
 		budget := 1500
 		min, tries := minimise(p, t, f.Class, budget)
 		min.Note = "class: " + f.Class + "\n" + f.Detail
